@@ -155,7 +155,8 @@ impl Scenario for PushScenario {
         let max_blocks = if tier == Tier::Quick { 6 } else { 40 };
         let blocks = match r.below(4) {
             0 => 1,
-            1 => r.pick(&[2usize, 4, 8, 16, 32]).min(max_blocks),
+            // powers of the recursion factors: 2 and 16 blocks compress to exactly 8^2 and 8^3 values after the first level
+            1 => r.pick(&[2usize, 4, 8, 16, 32]).min(if tier == Tier::Quick { 16 } else { 40 }),
             _ => r.range(1, max_blocks),
         };
         let per_block = (256 / wp).max(1);
